@@ -378,7 +378,7 @@ inductive MainOp
 deriving Repr, Inhabited
 
 def stepMain (sc : Script) (fuel : Nat) (s : State) : MainOp → State
-  | .op o => stepOp s o
+  | .op o => if s.closed then s else stepOp s o
   | .run m =>
     if s.closed then s else
     let s := emit s (.runBegin m)
